@@ -73,6 +73,12 @@ check("C20",
  "deterministic simulation: seeded operation histories over a private file tree with faulty files (undecodable / unparseable / missing / directory) as the fault kinds, relational oracles file vs stream vs string vs CLI, subprocess-calibrated process-exit model, minimised replay files",
  "DESIGN.md 4.4")
 
+check("C03",
+ "Seeded search over edit histories on a living Mapfile dictionary (real CaseInsensitiveOrderedDict objects edited through the dict API, mappyfile.update, loads() of harness-rendered snippets, shared child objects, hidden keys, reads of missing keys and repairs) shadowed by a model in which every value carries the lexical class MapServer requires; after edits dumps / dump to a recording stream / save onto a simulated file holding older content, under 9 option sets, 15% of histories with an I/O fault at the k-th schema read. Oracle: an independent reader of the printed text (no lark, no repo code) yields exactly the model's token sequence, or the call refuses and leaves zero bytes behind. Decides the history, stream and fault clauses by sampling; the per-(type, keyword, shape) lexical-class clause is only sampled through the workload (261 keyword alternatives of 19 object types).",
+ "Trusts the independent reader (sim/c03model.py read()), the rule that a value generated from schema alternative X must be printed in X's lexical class, and the exclusions listed in the evidence assumptions (ambiguous shapes are not generated). Expression spacing is compared modulo white space.",
+ "deterministic simulation: seeded edit/print histories with schema-read fault injection and recording streams, shadow model + independent reader as oracle, minimised replay files",
+ "DESIGN.md 4.7")
+
 def main():
     order = ["C03", "C09", "C12", "C15", "C17", "C18", "C20"]
     claimed = [CHECKS[p] for p in order if p in CHECKS]
